@@ -18,7 +18,7 @@ import numpy as np
 import core
 import gen
 
-PROOF_MODULES = ["UnytProofs.C19", "UnytProofs.Real.C19Allclose", "UnytProofs.Real.C19Affine"]
+PROOF_MODULES = ["UnytProofs.C19", "UnytProofs.Real.C19Allclose", "UnytProofs.Real.C19Affine", "UnytProofs.C19CompHelper"]
 
 # relative safety margin around the tolerance threshold: cases closer than this (in exact
 # arithmetic) are "borderline" — their verdict legitimately depends on floating-point rounding
@@ -394,6 +394,11 @@ def run(tier, seed):
     except Exception:  # noqa: BLE001  translator failed: reported through chk.proof["broken"]
         flags = {"bare_atol_in_desired_unit": None, "dimension_names": []}
     chk.extra["bare_atol_in_desired_unit"] = flags.get("bare_atol_in_desired_unit")
+    try:  # the helper program the driver interprets, as translated from the live source on this run
+        hp = json.load(open(os.path.join(core.BUILD, "extract_c19_handlers.json"), encoding="utf-8"))
+        chk.extra["comp_helper_program"] = {"branches": hp.get("comp_helper"), "ret": hp.get("ret")}
+    except Exception:  # noqa: BLE001  translator failed: reported through chk.proof["broken"]
+        chk.extra["comp_helper_program"] = None
     fams = unit_families(tier, rng)
     fam_units = {}
     for k, names in fams.items():
